@@ -6,6 +6,7 @@ import Mhd.Proofs.FramingPipeline
 namespace Mhd.Framing
 open Mhd.Gen.Framing Framer
 
+
 /-! ### malformed chunk syntax is an error, never a resynchronisation -/
 
 theorem chunkAct_nonhex (lvl : Int) (c : UInt8) (rest : Bytes) (hc : isHex c = false) :
@@ -112,7 +113,7 @@ theorem chunkAct_junk_after_size (lvl : Int) (ds : Bytes) (c d : UInt8) (r : Byt
     simp [a0, a1, a2]
 
 /-- a decoder error taints the connection: by `reach_noReparse` nothing is ever parsed as a request again -/
-theorem bodyStep_err_noReparse (lvl : Int) (s : St) (st : Nat) (hc : s.chunked = true) (wf : FlagsWF s)
+theorem bodyStep_err_noReparse [HeadParser] (lvl : Int) (s : St) (st : Nat) (hc : s.chunked = true) (wf : FlagsWF s)
     (ha : chunkAct lvl s.cur s.off s.buf = .err st) :
     bodyStep lvl s = some (errorReply s st) ∧ NoReparse (errorReply s st) ∧ (errorReply s st).buf = [] := by
   refine ⟨bodyStep_err lvl s st hc ha, errorReply_props s st wf, ?_⟩
